@@ -40,7 +40,7 @@ def gen_cases(ctx):
                     cases.append(Case("MINMAX_p%d_%d" % (p, rep), ops, dump=(), meta={"ind": ind, "p": p, "n": n, "m": 0.0}))
                     continue
                 k = nper(ind)
-                pr = (p if k >= 1 else 0, r.choice([1, p, 2 * p]) if k >= 2 else 0, r.choice([1, 3]) if k >= 3 else 0, m if ind in HAS_MULT else 0.0)
+                pr = (p if k >= 1 else 0, [1, p, 2 * p][rep % 3] if k >= 2 else 0, [1, 3][(rep // 3 + rep) % 2] if k >= 3 else 0, m if ind in HAS_MULT else 0.0)   # second period below / equal to / above the first: every case family, every seed
                 if ind in ("TR", "ATR", "CE", "KC") and (ind == "CE" or rep % 2 == 0):
                     bs = bar_stream(r, n, rot.pick((ind, "b"), ["walk", "segments", "gaps", "grid", "tinybars"]), p=p)
                     if rep % 3 == 2:
@@ -67,6 +67,20 @@ def gen_cases(ctx):
             src = "CE" if ind in ("CE", "TR") else "SMA"
             cases.append(Case("%s_long_p%d" % (ind, p), [new_op(0, ind, pr)] + long_feed(src, 4400, kind), dump=(),
                               meta={"ind": ind, "p": p, "n": 4400, "m": pr[3]}))
+    # exact crossovers (seed-independent): with fast period 1 the fast average is the input itself; every third input is made equal to
+    # the slow average of the step before, so that fast == slow bit for bit while the signal line is not zero — a shortcut taken
+    # "when the averages coincide" must still return histogram = line - signal
+    for ind in ("MACD", "PPO"):
+        for q in (3, 5):
+            kq = 2.0 / (q + 1.0)
+            xs, slow = [], None
+            base = [2.0, 4.0, 0.0, 5.0, 7.5, 0.0, 6.25, 3.0, 0.0, 9.0, 8.0, 0.0, 1.5, 2.5, 0.0, 4.0]
+            for j_, b_ in enumerate(base):
+                x = slow if (j_ % 3 == 2 and slow is not None) else b_
+                slow = x if slow is None else kq * x + (1.0 - kq) * slow
+                xs.append(x)
+            cases.append(Case("%s_crossover_q%d" % (ind, q), [new_op(0, ind, (1, q, 2, 0.0))] + [("n", 0, x) for x in xs], dump=(0,),
+                              meta={"ind": ind, "p": q, "n": len(xs), "m": 0.0}))
     # known finding K8: finite inputs whose differences overflow binary64 make the running variance inf - inf = NaN
     H = 1.7e308
     for p in (1, 2, 3):
